@@ -60,6 +60,7 @@ var recSpace = ev.New("C18", "config-space",
 
 func TestConfigSpace(t *testing.T) {
 	startPct := envInt("VERIF_C18_START_PCT", 40)
+	forceRare := envInt("VERIF_C18_FORCE_RARE", 1) != 0
 	t.Cleanup(stopPlanServer)
 	rapid.Check(t, func(rt *rapid.T) {
 		w := genWorld(rt)
@@ -106,7 +107,9 @@ func TestConfigSpace(t *testing.T) {
 		for _, s := range w.servers {
 			needTLS = needTLS || s.tlsOn()
 		}
-		wantStart = wantStart || w.legacyOnly || needTLS // the rare classes always get traffic
+		if forceRare {
+			wantStart = wantStart || w.legacyOnly || needTLS // quick tier: the rare classes always get traffic
+		}
 		sibStart := rapid.IntRange(0, 3).Draw(rt, "siblingStart") == 0
 		seed := rapid.Uint64().Draw(rt, "payloadSeed")
 
